@@ -32,6 +32,7 @@ type Contract struct {
 	Ensures    []*Clause
 	Invariants []*Clause
 	Decreases  *Clause
+	DecList    []*CExpr
 	Modifies   []*ModItem
 	HasMod     bool
 	Flags      map[string]bool
@@ -263,6 +264,23 @@ func (cs *ContractSet) ParseContractLines(file string, lines []string, poss []st
 			}
 			if cur == nil {
 				cs.Errors = append(cs.Errors, fmt.Sprintf("%s: clause outside a block", it.pos))
+				continue
+			}
+			if it.kw == "decreases" {
+				cl := &Clause{Kind: "decreases", Text: it.rest, Pos: it.pos}
+				cur.DecList = nil
+				for _, m := range splitTop(it.rest) {
+					e, err := ParseCExpr(strings.TrimSpace(m))
+					if err != nil {
+						cs.Errors = append(cs.Errors, fmt.Sprintf("%s: %v", it.pos, err))
+						continue
+					}
+					cur.DecList = append(cur.DecList, e)
+				}
+				if len(cur.DecList) > 0 {
+					cl.Expr = cur.DecList[0]
+				}
+				cur.Decreases = cl
 				continue
 			}
 			c := addClause(it.kw, it.rest, it.pos)
